@@ -13,7 +13,7 @@ DEFECT = "ws-adjacent-text-tokens"
 
 def real_filter(tokens):
     from html5lib.filters.whitespace import Filter
-    return list(Filter(copy.deepcopy(tokens)))
+    return tok.consume(Filter(copy.deepcopy(tokens)))
 
 
 def cfg(maxlen, export, checkprop, defects):
@@ -30,8 +30,25 @@ WS_PIECES = [" ", "  ", "\n", "\t", "\r\n", "\x0c", "&#32;", "&#9;", "&#10;", " 
              "<span>", "</span>", " ", "\x0b", "<title>", "</title>", "<iframe>", "</iframe>", "<svg>", "</svg>"]
 
 
-def ws_doc(rng):
-    return "".join(rng.choice(WS_PIECES) for _ in range(rng.randint(2, 14)))
+PRESERVE = ["pre", "textarea", "style", "script", "xmp", "iframe", "noembed", "noframes", "noscript"]      # Whitespace!Preserve
+
+
+def pieces():
+    """WS_PIECES + every element of the specification's Preserve set + every name literal of the filter's source (so a
+    name the implementation treats specially is always in the alphabet) + the characters Python calls whitespace and HTML
+    does not, at the edges of text"""
+    from .. import literals, charclasses
+    ps = list(WS_PIECES)
+    for n in PRESERVE + literals.extra_names(PRESERVE, "html5lib/filters/whitespace.py"):
+        if n not in ("data", "name", "type"):
+            ps += ["<%s>" % n, "</%s>" % n]
+    for c in charclasses.PY_ONLY_SPACE + charclasses.C0_CONTROLS:
+        ps += [c + "x", "x" + c, " " + c + " "]
+    return ps
+
+
+def ws_doc(rng, ps=None):
+    return "".join(rng.choice(ps or WS_PIECES) for _ in range(rng.randint(2, 14)))
 
 
 def streams(ctx, n):
@@ -40,8 +57,16 @@ def streams(ctx, n):
     docs = list(corpus.repo_strings())
     ctx.rng.shuffle(docs)
     docs = docs[: n // 4]
+    ps = pieces()
+    # every preserve element with a collapsible run inside, and every non-HTML space at both edges of a text node
+    for n_ in PRESERVE:
+        docs.append("<%s>a  b\n\nc</%s> <p>d  e</p>" % (n_, n_))
+        docs.append("<div><%s>  a \t b  </%s>  x  </div>" % (n_, n_))
+    from .. import charclasses
+    for c in charclasses.PY_ONLY_SPACE + charclasses.C0_CONTROLS:
+        docs.append("<b>%sc</b> <i>d%s</i>  <p>%s</p>e %s f" % (c, c, c, c))
     while len(docs) < n:
-        docs.append(ws_doc(ctx.rng) if ctx.rng.random() < 0.8 else corpus.soup(ctx.rng))
+        docs.append(ws_doc(ctx.rng, ps) if ctx.rng.random() < 0.8 else corpus.soup(ctx.rng))
     for i, d in enumerate(docs):
         tb = "dom" if i % 2 else "etree"
         try:
@@ -92,6 +117,11 @@ def run(ctx):
     # 3. code -> spec
     traces, meta = [], []
     for d, tb, s in streams(ctx, 600 if ctx.quick else 12000):
+        # input assumption of the filter specification (Walker.tla guarantees it): SpaceCharacters tokens hold HTML whitespace only
+        for t in s:
+            if t["type"] == "SpaceCharacters" and t["data"].strip("\t\n\x0c\r "):
+                ctx.violation("walker put a non-whitespace character into a SpaceCharacters token (the filter would erase it)",
+                              {"kind": "walker", "source": d, "treebuilder": tb, "data": tok.enc(t["data"])})
         inp = [tok.proj_token(t) for t in s]
         out = [tok.proj_token(t) for t in real_filter(s)]
         if inp != out:
